@@ -1120,6 +1120,36 @@ func (c *Ctx) runTags(walker *ssa.Function) {
 			n++
 			c.R.Func(core.FuncName(f))
 			key := fmt.Sprintf("%s|writer#%d", core.FuncName(f), n)
+			// a tag chosen among alternatives (`tag := …; if v.Subtype != "" { tag = … }`): every alternative is a constant
+			// tag, no tag at all, or a constant format whose only verb renders the value of its last option
+			if ph, isPhi := src.(*ssa.Phi); isPhi {
+				okk, why, decided := true, "", true
+				for _, e := range ph.Edges {
+					if s0, isK := core.ConstString(e); isK {
+						if s0 == "" {
+							continue // no tag: read like an empty one
+						}
+						if o, w := checkTagString(s0, readerKey, readerOpts); !o {
+							okk, why = false, w
+						}
+						continue
+					}
+					if cl, isC := e.(*ssa.Call); isC && core.CalleeName(cl.Common()) == "fmt.Sprintf" {
+						format, isK := core.ConstString(cl.Common().Args[0])
+						if isK && strings.Count(format, "%") == 1 && strings.HasSuffix(format, `=%s"`) {
+							if o, w := checkTagString(strings.Replace(format, "%s", "x", 1), readerKey, readerOpts); !o {
+								okk, why = false, w
+							}
+							continue
+						}
+					}
+					decided = false
+				}
+				if decided {
+					c.R.Add("TAGS", key, core.FuncName(f), p.InstrPos(in), okk, "a generated struct tag uses the reader's namespace, leaves the name part empty and only option keys the reader knows", ternary(okk, "every alternative is a well-formed tag (or none)", why))
+					return
+				}
+			}
 			if s, ok := core.ConstString(src); ok {
 				okk, why := checkTagString(s, readerKey, readerOpts)
 				c.R.Add("TAGS", key, core.FuncName(f), p.InstrPos(in), okk, "a generated struct tag uses the reader's namespace, leaves the name part empty and only option keys the reader knows", why)
@@ -1560,6 +1590,34 @@ func (c *Ctx) runReject(walker *ssa.Function) {
 	nf := p.Func(p.Arg, "NewFunc")
 	lifter := c.role("REJECT", "lifter")
 	isStruct := c.markerTypePredicate()
+	// the predicate may be split into an entry that unwraps the pointer levels and an inner test of the struct's own
+	// fields (`isStruct(t)` = unwrap, then `embedsStruct(t)`): callers see the entry
+	isStructEntry := isStruct
+	if isStruct != nil {
+		var outer *ssa.Function
+		n := 0
+		for _, site := range p.Callers(isStruct) {
+			w := core.Outer(site.Parent())
+			if w == isStruct {
+				continue
+			}
+			n++
+			if len(w.Params) == 1 && core.TypeStr(w.Params[0].Type()) == "reflect.Type" && w.Signature.Results().Len() == 1 && core.TypeStr(w.Signature.Results().At(0).Type()) == "bool" {
+				fwd := false
+				for _, r := range core.Returns(w) {
+					if r.Results[0] == site.Value() {
+						fwd = true
+					}
+				}
+				if fwd {
+					outer = w
+				}
+			}
+		}
+		if outer != nil && n == 1 {
+			isStructEntry = outer
+		}
+	}
 	errReturnGuardedBy := func(f *ssa.Function, pred func(l core.Lit) bool) (bool, string) {
 		// the error values f can return (seen through private helpers that produce them)
 		reach := map[ssa.Value]bool{}
@@ -1676,7 +1734,7 @@ func (c *Ctx) runReject(walker *ssa.Function) {
 			}
 			for _, l := range core.Lits(core.Guards(r.Block())) {
 				if l.Kind == "call" && l.Pol {
-					if cl, isC := l.Of.(*ssa.Call); isC && cl.Common().StaticCallee() == isStruct {
+					if cl, isC := l.Of.(*ssa.Call); isC && (cl.Common().StaticCallee() == isStruct || cl.Common().StaticCallee() == isStructEntry) {
 						// inside a counted loop (guard i < count)
 						for _, l2 := range core.Lits(core.Guards(r.Block())) {
 							if l2.Kind == "cmp" && l2.Op == token.LSS && l2.Pol {
@@ -1720,7 +1778,12 @@ func (c *Ctx) runReject(walker *ssa.Function) {
 		// marker detection looks through every pointer level: a loop whose condition is Kind()==Ptr and whose body takes Elem()
 		c.R.Func("isStruct")
 		loop := false
-		for _, b := range isStruct.Blocks {
+		for _, b := range append(append([]*ssa.BasicBlock{}, isStruct.Blocks...), func() []*ssa.BasicBlock {
+			if isStructEntry != isStruct {
+				return isStructEntry.Blocks
+			}
+			return nil
+		}()...) {
 			if len(b.Instrs) == 0 {
 				continue
 			}
